@@ -103,7 +103,8 @@ def _solve(idx):
         res["model"] = vals
     if _CFG.get("recheck") and r == z3.unsat and "cvc5" not in res:
         t1 = time.time()
-        cr, err = _run_cvc5(s.to_smt2(), _CFG["cvc5_timeout"])
+        # independent re-check of a z3 proof (thorough tier): cvc5's agreement is extra assurance, its silence is not a failure
+        cr, err = _run_cvc5(s.to_smt2(), min(_CFG["cvc5_timeout"], 20))
         res["cvc5"] = cr
         res["cvc5_s"] = round(time.time() - t1, 3)
     res["steps"] = steps
